@@ -301,6 +301,30 @@ func (c *Ctx) scopeNextNode() {
 		nEnd++
 		c.check(after && okNode, "SCOPE-END", fmt.Sprintf("%s#end%d", name, nEnd), where, "ends at End() of a node that starts after the comment",
 			"scope end is not End() of a declaration/node that starts after the comment: "+short(nd))
+		// inside the walk: once the node is recorded, the walk does not descend into it - its children (a doc or
+		// line comment group attached to a spec starts before the spec) must not replace it
+		if wf := at.Parent(); wf != fn && at.Block() != nil {
+			seen := map[*ssa.BasicBlock]bool{}
+			work := []*ssa.BasicBlock{at.Block()}
+			prunes, nRet := true, 0
+			for len(work) > 0 {
+				b := work[len(work)-1]
+				work = work[:len(work)-1]
+				if seen[b] {
+					continue
+				}
+				seen[b] = true
+				if r, ok := lastInstr(b).(*ssa.Return); ok && len(r.Results) == 1 {
+					nRet++
+					if cv, isC := constBool(r.Results[0]); !isC || cv {
+						prunes = false
+					}
+				}
+				work = append(work, b.Succs...)
+			}
+			c.check(prunes && nRet > 0, "SCOPE-END/FIRST-NODE", fmt.Sprintf("%s#end%d", name, nEnd), where, "the walk does not descend below the node it has recorded",
+				"after recording the node that follows the comment the walk goes on into that node: a child that starts after the comment but before the node (the comment group attached to a declaration) replaces it, and the scope shrinks to that comment")
+		}
 	}
 	allInstrs(fn, func(b *ssa.BasicBlock, ins ssa.Instruction) {
 		r, ok := ins.(*ssa.Return)
@@ -679,9 +703,19 @@ func (c *Ctx) flagMeansCodeOnLine(v ssa.Value, fn *ssa.Function, isLineOfComment
 				sameLine = true
 				lineKinds["start"] = true
 			}
-			if l.Kind == "or" && l.Pos {
-				all := len(l.Subs) > 0
+			var disj []Lit
+			switch {
+			case l.Kind == "or" && l.Pos:
+				disj = l.Subs
+			case l.Kind == "and" && !l.Pos: // !(a && b) == !a || !b
 				for _, sl := range l.Subs {
+					sl.Pos = !sl.Pos
+					disj = append(disj, sl)
+				}
+			}
+			if len(disj) > 0 {
+				all := true
+				for _, sl := range disj {
 					switch {
 					case lineEq(sl, ".End;"):
 						lineKinds["end"] = true
@@ -937,9 +971,43 @@ func (c *Ctx) ruleReportGate(onlyPkgs ...string) {
 	// NewReporter: the ignore set of the pass, or nil (then the package gates at detection time: GUARD-SIG)
 	nNR := 0
 	for _, fn := range P.ModFuncs {
+		if fn.TypeParams().Len() > 0 && len(fn.TypeArgs()) == 0 {
+			continue // the uninstantiated body of a generic function: its instances are what runs
+		}
 		allInstrs(fn, func(b *ssa.BasicBlock, ins ssa.Instruction) {
 			call, ok := ins.(*ssa.Call)
 			if !ok || call.Call.StaticCallee() == nil || FuncName(call.Call.StaticCallee()) != "reporting.NewReporter" {
+				return
+			}
+			// a shared helper of package reporting that creates the reporter for its caller: judged once per
+			// caller, in the caller's package and with the caller's arguments
+			if funcPkgPath(fn) == modulePath+"/src/reporting" {
+				for _, cs := range P.Callers(fn) {
+					cpkg := strings.TrimPrefix(funcPkgPath(cs.Parent()), modulePath+"/src/")
+					nNR++
+					if !wantPkg(cpkg) {
+						continue
+					}
+					P.PinnedAll(pinMap{fn: cs}, func() {
+						a := call.Call.Args[1]
+						if P.RootsAllDeep(a, isNilConst) {
+							// every site of the caller's package must be gated at detection time
+							okAll := true
+							for _, s := range c.sitesOf(cpkg) {
+								si := c.buildSiteInfo(s)
+								if !hasLit(si.All, func(l Lit) bool {
+									gc := P.litCallTo(l, fnIgnoreContain)
+									return gc != nil && !l.Pos && c.isPassIgnoreSet(gc.Call.Args[0])
+								}) {
+									okAll = false
+								}
+							}
+							c.check(okAll, "REPORT-GATE/NEWREPORTER", FuncName(cs.Parent())+"->"+FuncName(fn), P.Pos(cs.Pos()), "no report-time set; every site of the package is gated at detection time", "reporter is created without an ignore set and some report site of package "+cpkg+" is not gated by ignoreSet.Contains at detection time: @ignore and exclude-checks have no effect there")
+							return
+						}
+						c.check(c.isPassIgnoreSet(a), "REPORT-GATE/NEWREPORTER", FuncName(cs.Parent())+"->"+FuncName(fn), P.Pos(cs.Pos()), "reporter gets the pass's ignore set", "reporter is created with an ignore set that is not the IgnoreReader result of this pass: "+short(P.DescDeep(a)))
+					})
+				}
 				return
 			}
 			nNR++
